@@ -3,4 +3,8 @@ import SpaModel.Proto
 import SpaModel.AlgProto
 import SpaModel.Generated.Tables
 import SpaModel.Props.C02
+import SpaModel.Props.C09
 import SpaModel.Props.C11
+import SpaModel.Props.C14
+import SpaModel.Props.C16
+import SpaModel.Props.C20
